@@ -3,9 +3,7 @@
 use std::sync::{Arc, Mutex};
 use std::time::Duration;
 
-use tyme4rs::tyme::lunar::{LunarDay, LunarHour};
-use tyme4rs::tyme::Tyme;
-
+use crate::handles::{Handle, HCMP_KEY, HGETTERS, HGET_KEY, HNEW_KEY, HSTEP_KEY};
 use crate::query::*;
 use crate::sched::{sim, RunResult};
 use crate::script::{Op, RunScript, SLOTS};
@@ -25,11 +23,6 @@ pub struct EvalRec {
   pub seq: (u64, u64),
 }
 
-enum Handle {
-  D(LunarDay),
-  H(LunarHour),
-}
-
 pub struct ExecOut {
   pub evals: Vec<EvalRec>,
   pub result: RunResult,
@@ -44,13 +37,6 @@ fn clip(s: &str, keep_text: bool) -> String {
     s.to_string()
   } else {
     String::new()
-  }
-}
-
-fn handle_key_base(h: &Handle) -> Vec<i64> {
-  match h {
-    Handle::D(d) => vec![d.get_year() as i64, d.get_month() as i64, d.get_day() as i64],
-    Handle::H(h) => vec![h.get_year() as i64, h.get_month() as i64, h.get_day() as i64, h.get_hour() as i64, h.get_minute() as i64, h.get_second() as i64],
   }
 }
 
@@ -125,116 +111,127 @@ pub fn exec_run_opt(script: &RunScript, keep_log: bool, keep_text: bool, watchdo
           }
           ev2.lock().unwrap().push(EvalRec { tid: tid as u8, op: idx as u16, key: q.key(), class: out.class(), digest: out.digest(), text: clip(out.text(), keep_text), from_handle: false, rnew, seq: (s0, s1) });
         }
-        Op::HNew { slot, hour, args } => {
+        Op::QRep { q, times } => {
+          let s0 = next_seq();
+          let mut out = q.eval();
+          for _ in 1..*times {
+            // every repetition is an operation of its own for the step budget
+            if !sim().op_start(tid, idx as u32) {
+              break;
+            }
+            out = q.eval();
+          }
+          let s1 = next_seq();
+          let rnew = if with_rnew && q.kind == K_LM_FROM_YM {
+            let r = Query::new(K_LM_NEW, q.args.clone()).eval();
+            Some((r.class(), r.digest(), clip(r.text(), keep_text)))
+          } else {
+            None
+          };
+          ev2.lock().unwrap().push(EvalRec { tid: tid as u8, op: idx as u16, key: q.key(), class: out.class(), digest: out.digest(), text: clip(out.text(), keep_text), from_handle: false, rnew, seq: (s0, s1) });
+        }
+        Op::HNew { slot, kind, args } => {
           let a = args.clone();
+          let k = *kind;
           let s0 = next_seq();
           let mut made: Option<Handle> = None;
-          let out = if *hour {
-            run_guarded(|| {
-              let h = LunarHour::new(a[0] as isize, a[1] as isize, a[2] as usize, a[3] as usize, a[4] as usize, a[5] as usize)?;
-              let r = r_lh(&h);
-              made = Some(Handle::H(h));
-              Ok(r)
-            })
-          } else {
-            run_guarded(|| {
-              let d = LunarDay::new(a[0] as isize, a[1] as isize, a[2] as usize)?;
-              let r = r_ld(&d);
-              made = Some(Handle::D(d));
-              Ok(r)
-            })
-          };
+          let out = run_guarded(|| {
+            let h = Handle::make(k, &a)?;
+            let r = h.render();
+            made = Some(h);
+            Ok(r)
+          });
           let s1 = next_seq();
           slots[*slot] = made;
-          ev2.lock().unwrap().push(EvalRec { tid: tid as u8, op: idx as u16, key: key_of(if *hour { "LH.new" } else { "LD.new" }, args), class: out.class(), digest: out.digest(), text: clip(out.text(), keep_text), from_handle: true, rnew: None, seq: (s0, s1) });
+          ev2.lock().unwrap().push(EvalRec { tid: tid as u8, op: idx as u16, key: key_of(HNEW_KEY[k], args), class: out.class(), digest: out.digest(), text: clip(out.text(), keep_text), from_handle: true, rnew: None, seq: (s0, s1) });
         }
         Op::HNext { slot, n } => {
           if let Some(h) = slots[*slot].take() {
-            let mut base = handle_key_base(&h);
+            let k = h.kind();
+            let mut base = h.base();
             base.push(*n);
             let s0 = next_seq();
             let mut made: Option<Handle> = None;
-            let is_hour = matches!(h, Handle::H(_));
-            let out = run_guarded(|| match &h {
-              Handle::D(d) => {
-                let x = d.next(*n as isize);
-                let r = r_ld(&x);
-                made = Some(Handle::D(x));
-                Ok(r)
-              }
-              Handle::H(hh) => {
-                let x = hh.next(*n as isize);
-                let r = r_lh(&x);
-                made = Some(Handle::H(x));
-                Ok(r)
-              }
+            let out = run_guarded(|| {
+              let x = h.step(*n);
+              let r = x.render();
+              made = Some(x);
+              Ok(r)
             });
             let s1 = next_seq();
+            let ok_identity = h.reliable() && made.as_ref().map(|x| x.reliable()).unwrap_or(true);
             slots[*slot] = made;
-            ev2.lock().unwrap().push(EvalRec { tid: tid as u8, op: idx as u16, key: key_of(if is_hour { "LH.step" } else { "LD.step" }, &base), class: out.class(), digest: out.digest(), text: clip(out.text(), keep_text), from_handle: true, rnew: None, seq: (s0, s1) });
+            if ok_identity {
+            ev2.lock().unwrap().push(EvalRec { tid: tid as u8, op: idx as u16, key: key_of(HSTEP_KEY[k], &base), class: out.class(), digest: out.digest(), text: clip(out.text(), keep_text), from_handle: true, rnew: None, seq: (s0, s1) });
+            }
           }
         }
         Op::HClone { from, to } => {
-          let c = match &slots[*from] {
-            Some(Handle::D(d)) => Some(Handle::D(d.clone())),
-            Some(Handle::H(h)) => Some(Handle::H(h.clone())),
-            None => None,
-          };
+          let c = slots[*from].as_ref().map(|h| h.dup());
           if c.is_some() {
             slots[*to] = c;
           }
         }
-        Op::HDay { from, to } => {
-          // a LunarDay taken out of a LunarHour: carries whatever the hour has memoised so far
-          let d = match &slots[*from] {
-            Some(Handle::H(h)) => Some(Handle::D(h.get_lunar_day())),
-            _ => None,
-          };
+        Op::HDay { from, to, variant } => {
+          // a value taken out of another one: carries whatever that one has memoised so far
+          let mut d: Option<Handle> = None;
+          if let Some(h) = &slots[*from] {
+            let _ = run_guarded(|| {
+              d = h.derive(*variant);
+              Ok(String::new())
+            });
+          }
           if d.is_some() {
             slots[*to] = d;
           }
         }
         Op::HHour { from, to, k } => {
-          // one of the double-hours listed by a LunarDay
+          // one of the double-hours listed by a day
           let mut made: Option<Handle> = None;
-          if let Some(Handle::D(d)) = &slots[*from] {
-            let base = handle_key_base(&Handle::D(d.clone()));
-            let s0 = next_seq();
-            let kk = *k;
-            let out = run_guarded(|| {
-              let mut hours = d.get_hours();
-              if kk >= hours.len() {
-                return Err("no such hour".to_string());
-              }
-              let h = hours.swap_remove(kk);
-              let r = r_lh(&h);
-              made = Some(Handle::H(h));
-              Ok(r)
-            });
-            let s1 = next_seq();
-            let mut key_args = base.clone();
-            key_args.push(kk as i64);
-            ev2.lock().unwrap().push(EvalRec { tid: tid as u8, op: idx as u16, key: key_of("LD.hour", &key_args), class: out.class(), digest: out.digest(), text: clip(out.text(), keep_text), from_handle: true, rnew: None, seq: (s0, s1) });
+          if let Some(h) = &slots[*from] {
+            if h.kind() == 0 || h.kind() == 2 {
+              let mut key_args = h.base();
+              key_args.push(*k as i64);
+              let name = if h.kind() == 0 { "LD.hour" } else { "SCD.hour" };
+              let s0 = next_seq();
+              let kk = *k;
+              let out = run_guarded(|| {
+                let x = h.hour(kk)?;
+                let r = x.render();
+                made = Some(x);
+                Ok(r)
+              });
+              let s1 = next_seq();
+              ev2.lock().unwrap().push(EvalRec { tid: tid as u8, op: idx as u16, key: key_of(name, &key_args), class: out.class(), digest: out.digest(), text: clip(out.text(), keep_text), from_handle: true, rnew: None, seq: (s0, s1) });
+            }
           }
           if made.is_some() {
             slots[*to] = made;
           }
         }
+        Op::HCmp { a, b } => {
+          if let (Some(x), Some(y)) = (&slots[*a], &slots[*b]) {
+            if x.kind() == y.kind() && x.reliable() && y.reliable() {
+              let k = x.kind();
+              let mut base = x.base();
+              base.extend(y.base());
+              let s0 = next_seq();
+              let out = run_guarded(|| x.compare(y).ok_or("not comparable".to_string()));
+              let s1 = next_seq();
+              ev2.lock().unwrap().push(EvalRec { tid: tid as u8, op: idx as u16, key: key_of(HCMP_KEY[k], &base), class: out.class(), digest: out.digest(), text: clip(out.text(), keep_text), from_handle: true, rnew: None, seq: (s0, s1) });
+            }
+          }
+        }
         Op::HGet { slot, g } => {
-          if let Some(h) = &slots[*slot] {
-            let mut base = handle_key_base(h);
-            let (name, gg) = match h {
-              Handle::D(_) => ("LD.get", g % LD_GETTERS as i64),
-              Handle::H(_) => ("LH.get", g % LH_GETTERS as i64),
-            };
+          if let Some(h) = slots[*slot].as_ref().filter(|h| h.reliable()) {
+            let k = h.kind();
+            let mut base = h.base();
+            let gg = g % HGETTERS[k] as i64;
             base.push(gg);
             let s0 = next_seq();
-            let out = run_guarded(|| match h {
-              Handle::D(d) => Ok(ld_get(d, gg)),
-              Handle::H(hh) => Ok(lh_get(hh, gg)),
-            });
+            let out = run_guarded(|| Ok(h.get(gg)));
             let s1 = next_seq();
-            ev2.lock().unwrap().push(EvalRec { tid: tid as u8, op: idx as u16, key: key_of(name, &base), class: out.class(), digest: out.digest(), text: clip(out.text(), keep_text), from_handle: true, rnew: None, seq: (s0, s1) });
+            ev2.lock().unwrap().push(EvalRec { tid: tid as u8, op: idx as u16, key: key_of(HGET_KEY[k], &base), class: out.class(), digest: out.digest(), text: clip(out.text(), keep_text), from_handle: true, rnew: None, seq: (s0, s1) });
           }
         }
       }
